@@ -15,7 +15,7 @@ import tempfile
 from abc import ABC, abstractmethod
 from contextlib import nullcontext
 from dataclasses import dataclass, asdict, fields
-from io import StringIO
+from io import BytesIO, StringIO
 from typing import Union, Dict, Any, Type, List, Optional, Sequence, MutableSequence, TextIO, Generator, Iterable, \
     TypeVar, Generic, Mapping, IO
 
@@ -285,7 +285,11 @@ class MemoryMappedRandomLineAccessFile(RandomLineAccessFile):
     def open(self) -> "MemoryMappedRandomLineAccessFile":
         if self.file is None:
             self.file = open(self.path_to, "rb")
-            self.mm = mmap.mmap(self.file.fileno(), 0, access=mmap.ACCESS_READ)
+            if os.fstat(self.file.fileno()).st_size == 0:
+                # an empty file can not be memory mapped, it has no lines and an empty in-memory stream reads the same
+                self.mm = BytesIO()
+            else:
+                self.mm = mmap.mmap(self.file.fileno(), 0, access=mmap.ACCESS_READ)
             self._opened_in_process_with_id = os.getpid()
         return self
 
